@@ -2882,7 +2882,7 @@ void mmd_string_convert_to_file(const char * source, unsigned long extensions, s
 
 	mmd_engine_set_language(e, language);
 
-	mmd_engine_parse_string(e);
+	mmd_engine_convert_to_file(e, format, directory, filepath);
 
 	mmd_engine_free(e, true);			// The engine has a private copy of source, so free it.
 }
